@@ -9,6 +9,7 @@ import (
 	"path/filepath"
 	"sort"
 	"sync"
+	"time"
 
 	"cosmossdk.io/log"
 	storetypes "cosmossdk.io/store/types"
@@ -288,31 +289,53 @@ func (n *Node) CheckTx(tx []byte, recheck bool) (resp *abci.ResponseCheckTx, err
 	return n.App.CheckTx(&abci.RequestCheckTx{Tx: tx, Type: t})
 }
 
-func (n *Node) Prepare(req *abci.RequestPrepareProposal) (resp *abci.ResponsePrepareProposal, err error) {
-	defer func() {
-		if r := recover(); r != nil {
-			err = fmt.Errorf("PrepareProposal panicked: %v", r)
-		}
+// CallDeadline bounds PrepareProposal, ProcessProposal and FinalizeBlock: each normally takes milliseconds (engine
+// requests have deadlines of their own), so a call that has not returned after this long is treated as hung. The
+// goroutine of a hung call cannot be stopped; OnHang (set by the property runner) records the case and ends the process.
+var CallDeadline = 180 * time.Second
+
+// OnHang, if set, is called when a call exceeds CallDeadline; it is expected not to return.
+var OnHang func(what string)
+
+func guarded[T any](what string, f func() (T, error)) (T, error) {
+	type out struct {
+		v   T
+		err error
+	}
+	ch := make(chan out, 1)
+	go func() {
+		var o out
+		defer func() {
+			if r := recover(); r != nil {
+				o.err = fmt.Errorf("%s panicked: %v", what, r)
+			}
+			ch <- o
+		}()
+		o.v, o.err = f()
 	}()
-	return n.App.PrepareProposal(req)
+	select {
+	case o := <-ch:
+		return o.v, o.err
+	case <-time.After(CallDeadline):
+		msg := fmt.Sprintf("%s did not return within %s (hung)", what, CallDeadline)
+		if OnHang != nil {
+			OnHang(msg)
+		}
+		var zero T
+		return zero, fmt.Errorf("%s", msg)
+	}
 }
 
-func (n *Node) Process(req *abci.RequestProcessProposal) (resp *abci.ResponseProcessProposal, err error) {
-	defer func() {
-		if r := recover(); r != nil {
-			err = fmt.Errorf("ProcessProposal panicked: %v", r)
-		}
-	}()
-	return n.App.ProcessProposal(req)
+func (n *Node) Prepare(req *abci.RequestPrepareProposal) (*abci.ResponsePrepareProposal, error) {
+	return guarded("PrepareProposal", func() (*abci.ResponsePrepareProposal, error) { return n.App.PrepareProposal(req) })
 }
 
-func (n *Node) Finalize(req *abci.RequestFinalizeBlock) (resp *abci.ResponseFinalizeBlock, err error) {
-	defer func() {
-		if r := recover(); r != nil {
-			err = fmt.Errorf("FinalizeBlock panicked: %v", r)
-		}
-	}()
-	return n.App.FinalizeBlock(req)
+func (n *Node) Process(req *abci.RequestProcessProposal) (*abci.ResponseProcessProposal, error) {
+	return guarded("ProcessProposal", func() (*abci.ResponseProcessProposal, error) { return n.App.ProcessProposal(req) })
+}
+
+func (n *Node) Finalize(req *abci.RequestFinalizeBlock) (*abci.ResponseFinalizeBlock, error) {
+	return guarded("FinalizeBlock", func() (*abci.ResponseFinalizeBlock, error) { return n.App.FinalizeBlock(req) })
 }
 
 func (n *Node) Commit() (err error) {
